@@ -596,21 +596,37 @@ impl<P: RuntimeProvider + Send + Sync> ZoneHandler for InMemoryZoneHandler<P> {
 
         let closest_proof = inner.closest_nsec(name);
 
-        // we need the wildcard proof, but make sure that it's still part of the zone.
-        let wildcard = name.base_name();
-        let origin = self.origin();
-        let wildcard = if origin.zone_of(&wildcard) {
-            wildcard
-        } else {
-            origin.clone()
-        };
+        // We need the wildcard proof: the NSEC record covering (or matching) the wildcard at the
+        // closest encloser of the name, the longest ancestor of the name that exists. No name
+        // exists between the owner name and the next domain name of the NSEC record covering the
+        // name, so the closest encloser is the longer one of the names that the name has in common
+        // with these two.
+        let wildcard_proof = closest_proof.as_ref().and_then(|closest_proof| {
+            let next_domain_name = closest_proof.records_without_rrsigs().find_map(|record| {
+                match &record.data {
+                    RData::DNSSEC(DNSSECRData::NSEC(nsec)) => Some(nsec.next_domain_name().clone()),
+                    _ => None,
+                }
+            })?;
 
-        // don't duplicate the record...
-        let wildcard_proof = if wildcard != *name {
-            inner.closest_nsec(&wildcard)
-        } else {
-            None
-        };
+            let mut closest_encloser = LowerName::new(&Name::root());
+            for seed_name in [closest_proof.name(), &next_domain_name] {
+                let mut candidate = LowerName::new(seed_name);
+                while !candidate.zone_of(name) {
+                    candidate = candidate.base_name();
+                }
+                if candidate.len() > closest_encloser.len() {
+                    closest_encloser = candidate;
+                }
+            }
+
+            // If that wildcard exists the name was matched by it, and the NSEC record covering the
+            // name (no closer match exists) is all that is needed (RFC 4035 section 3.1.3.3).
+            let wildcard = Name::from(&closest_encloser).prepend_label("*").ok()?;
+            inner
+                .closest_nsec(&LowerName::new(&wildcard))
+                .filter(|wildcard_proof| *wildcard_proof.name() != wildcard)
+        });
 
         let proofs = match (closest_proof, wildcard_proof) {
             (Some(closest_proof), Some(wildcard_proof)) => {
